@@ -6,8 +6,10 @@
 #define C20_MASTER
 #include "/c20/body.h"
 
-mapping cfpol = ([ "u1" : "s:u1", "u2" : "s:u2", "bb" : "s:Backbone", "root" : "s:Root", "odd" : "i:0" ]);
-mapping vspol = ([ ]);
+// the policy tables live in the registry object so that they survive a reload of the master (destruct(master()))
+#define cfpol ((mapping) REG->pol ("cf"))
+#define vspol ((mapping) REG->pol ("vs"))
+#define copol ((mapping) REG->pol ("co"))
 
 void create () { oid = "m"; }
 
@@ -25,13 +27,13 @@ string error_handler (mapping m, int caught) {
   return "";
 }
 
-mapping copol = ([ ]);
-int vseq = 0;
 
 void set_pol (string kind, string a, string b, string c) {
-  if (kind == "cf") cfpol[a] = b;
-  else if (kind == "co") { if (b == "-") map_delete (copol, a); else copol[a] = b; }
-  else if (kind == "vs") vspol[a + ":" + (b == "-" ? "" : b)] = c;
+  mapping m;
+  m = REG->pol (kind);
+  if (kind == "cf") m[a] = b;
+  else if (kind == "co") { if (b == "-") map_delete (m, a); else m[a] = b; }
+  else if (kind == "vs") m[a + ":" + (b == "-" ? "" : b)] = c;
 }
 
 mixed answer (string spec) {
@@ -58,7 +60,7 @@ mixed compile_object (string file) {
   VL ("co " + file + " " + spec);
   REG->snap ();
   if (spec[0..1] == "t:") {
-    n = ++vseq;
+    n = REG->next_v ();
     r = run_op ("clone,v" + n + "," + spec[2..]);
     if (r != "v" + n) return 0;     // also when the template was virtual itself and another object came back
     return REG->get (r);
